@@ -158,7 +158,7 @@ Section WithOracle.
     forall fuel, (len p < fuel)%nat -> safe (rs_options lbl_ok fuel p).
   Proof.
     intros Hw fuel Hf. unfold rs_options.
-    destruct (Nat.leb_spec (len p) 24); [sdone|].
+    destruct (Nat.leb_spec (len p) 8); [sdone|].
     sstep. apply new_parse_options_total; [slen|cbn [len]; lia].
   Qed.
 End WithOracle.
